@@ -1,5 +1,6 @@
 /- Line protocol of engine "writer" (harness/src/eng_writer.rs): writer programs → file bytes. Driver glue. -/
 import E57.Model.Writer
+import E57.Model.MetaTree
 import E57.Drv.Pages
 namespace E57.Drv
 open E57
@@ -136,6 +137,9 @@ structure WState where
   cur : Cur
   res : List String   -- reversed
   stop : Bool := false
+  /-- tokens of the tree the XML of the last finalize denotes (`MT.rootDoc`), when that was a plain
+      `finalize()` that succeeded -/
+  tree : Option (List String) := none
 
 def outTok {α} : Outcome α → String
   | .ok _ => "ok"
@@ -173,13 +177,15 @@ def stepW (ft : FloatText) (s : WState) (toks : List String) : Option (WState ×
     some (push "ok" { s with cur := .img (ImgW.new (← strOfHex g)) }, rest)
   | .top, "FIN" :: rest =>
     match EW.finalize ft s.e (fun x => some x) with
-    | .ok e => some (push "ok" { s with e := e }, rest)
-    | .err _ => some (push "err" s, rest)
+    | .ok e =>
+      let t := (MT.rootDoc ft s.e.root s.e.pcs s.e.imgs s.e.exts).map MT.docTokens
+      some (push "ok" { s with e := e, tree := t }, rest)
+    | .err _ => some (push "err" { s with tree := none }, rest)
     | .panic _ => some ({ push "panic" s with stop := true }, rest)
   | .top, "FINX" :: m :: rest => do
     match EW.finalize ft s.e (← parseTransformer m) with
-    | .ok e => some (push "ok" { s with e := e }, rest)
-    | .err _ => some (push "err" s, rest)
+    | .ok e => some (push "ok" { s with e := e, tree := none }, rest)
+    | .err _ => some (push "err" { s with tree := none }, rest)
     | .panic _ => some ({ push "panic" s with stop := true }, rest)
   -- ---------- failed point cloud: skip statements
   | .pcFailed, "END" :: rest => some (push "-" { s with cur := .top }, rest)
@@ -327,13 +333,24 @@ def extractXmlBytes (file : Bytes) : Bytes :=
   (logical.drop (off - 4 * (off / 1024))).take len
 
 /-- run a writer program; returns the result tokens and the final device bytes -/
+def runWriterProgramT (toks : List String) : Option (List String × Bytes × Option (List String)) := do
+  let (ft, rest) ← parseFloatTables toks
+  match rest with
+  | lv :: g :: stmts =>
+    match EW.new Dev.empty (← strOfHex g) (← strOfHex lv) with
+    | .ok e =>
+      let s ← runW ft ⟨e, .top, [], false, none⟩ stmts
+      some (s.res.reverse, s.e.pw.flush.dev.data, s.tree)
+    | _ => some (["NEWERR"], [], none)
+  | _ => none
+
 def runWriterProgram (toks : List String) : Option (List String × Bytes) := do
   let (ft, rest) ← parseFloatTables toks
   match rest with
   | lv :: g :: stmts =>
     match EW.new Dev.empty (← strOfHex g) (← strOfHex lv) with
     | .ok e =>
-      let s ← runW ft ⟨e, .top, [], false⟩ stmts
+      let s ← runW ft ⟨e, .top, [], false, none⟩ stmts
       -- dropping the writer flushes the page buffer
       some (s.res.reverse, s.e.pw.flush.dev.data)
     | _ => some (["NEWERR"], [])
@@ -342,9 +359,12 @@ def runWriterProgram (toks : List String) : Option (List String × Bytes) := do
 def writerLine (toks : List String) : String :=
   match toks with
   | "wr" :: rest =>
-    match runWriterProgram rest with
-    | some (res, file) =>
-      s!"R {joinSp res} | F {file.length}:{(fnv file).toNat} | X {hexTok (extractXmlBytes file)}"
+    match runWriterProgramT rest with
+    | some (res, file, tree) =>
+      let t := match tree with
+        | some toks => s!"{toks.length}:{(fnv (utf8 (joinSp toks))).toNat}"
+        | none => "-"
+      s!"R {joinSp res} | F {file.length}:{(fnv file).toNat} | X {hexTok (extractXmlBytes file)} | T {t}"
     | none => "BADCASE"
   | "wrdump" :: rest =>
     match runWriterProgram rest with
